@@ -193,7 +193,8 @@ def r3(R, repo):
   pc = flow.defs(sv, 'parent_count')
   ok = ok and 'issubclass(p, variablelib.Variable)' in astu.src(sv.node) and 't.mro()' in astu.src(sv.node)
   keyl = astu.kwarg(rets[0], 'key') if len(rets) == 1 and isinstance(rets[0], ast.Call) and astu.call_name(rets[0]) == 'sorted' else None
-  R.judge(isinstance(keyl, ast.Lambda) and 'parent_count' in astu.src(keyl), ok, key_of(sv, 'sorted by number of Variable ancestors, descending, as the primary key'), sv,
+  asc = keyl is not None and 'parent_count' in astu.src(keyl) and not any(isinstance(x, ast.UnaryOp) and isinstance(x.op, ast.USub) for x in ast.walk(keyl)) and not astu.is_const(astu.kwarg(rets[0], 'reverse'), True)
+  R.judge((isinstance(keyl, ast.Lambda) and 'parent_count' in astu.src(keyl)) or asc, ok and not asc, key_of(sv, 'sorted by number of Variable ancestors, descending, as the primary key'), sv,
           'sort_variable_types must order types by -(number of Variable classes in the MRO) as the primary key, so that a subclass always precedes its base')
 
 
@@ -249,5 +250,6 @@ meta('C18',
          Mutant('C18-m4', ME, "    metadata = dict(vars(self))\n    metadata['sharding'] = metadata.pop('names')", "    metadata = vars(self)\n    metadata['sharding'] = metadata.pop('names')", 'C18.R2', why='the original defect F3'),
          Mutant('C18-m5', LS, "    metadata['rules'] = metadata.pop('sharding_rules')", "    metadata['rules'] = metadata.pop('sharding')", 'C18.R4'),
          Mutant('C18-m6', BW, "    out = module(*args, **kwargs)\n    self._update_variables(module)\n    return out", "    self._update_variables(module)\n    out = module(*args, **kwargs)\n    return out", 'C18.R3'),
+         Mutant('C18-m8', BV, "  return sorted(types, key=lambda t: -parent_count[t])", "  return sorted(types, key=parent_count.__getitem__)", 'C18.R3', why='seed C18-D (round 2)'),
          Mutant('C18-m7', VL, "  if not overwrite and name in VariableTypeCache:", "  if False and name in VariableTypeCache:", 'C18.R1'),
      ])
